@@ -4,6 +4,7 @@
 
 From Coq Require Import List ZArith Bool Sorted.
 From Ivv Require Import Avl.AvlModel Avl.AvlProofs.
+From Ivv Require Gen.LeafAvl Avl.AvlLink.
 Import ListNotations.
 Local Open Scope Z_scope.
 
@@ -63,6 +64,32 @@ Theorem C16_monitor_sound :
   forall t, inv_b t = true <-> C16_Inv t.
 Proof. exact inv_b_spec. Qed.
 Print Assumptions C16_monitor_sound.
+
+(* THE HEIGHT / BALANCE ARITHMETIC OF THE MODEL IS THE CODE.  Gen/LeafAvl.v is regenerated on every run by gen/c2gallina.py
+   from the clang AST of the current src/iv_avl.c, C integer semantics explicit (Base/CSem.v, None = null dereference /
+   signed overflow): height() -> avl_height, recalc_height() -> avl_recalc_height (the value stored into the uint8_t
+   field), balance() -> avl_balance, and of rebalance_node() `bal = balance(root)`, `if (bal == -2)`,
+   `if (balance(root->left) <= 0)`, `else if (bal == 2)`, `if (balance(root->right) < 0)`.  A node pointer is its address;
+   adr is ANY map from subtrees to addresses that is 0 exactly on the empty tree (Avl.AvlLink.addressing, satisfiable).
+   For stored heights that are uint8_t values: height() = ht; recalc_height() stores ht (mk l k r) modulo 256, i.e. exactly
+   the model's height below 255 (C16_height_log: a tree that high has more than 2^176 nodes); balance() = balance; and
+   rebalance_node written with the translated tests (Avl.AvlLink.rebalance_node_code: thresholds -2 / 2 / <= 0 / < 0, choice
+   among the four rotations) is defined and equal to the model's rebalance_node. *)
+Theorem C16_balance_arith_is_the_code :
+  forall adr, Ivv.Avl.AvlLink.addressing adr ->
+  (forall t, Ivv.Gen.LeafAvl.avl_height (adr t) (ht t) = Some (ht t)) /\
+  (forall l k r, 0 <= ht l <= 255 -> 0 <= ht r <= 255 ->
+     Ivv.Gen.LeafAvl.avl_recalc_height (adr l) (ht l) (adr r) (ht r) = Some (ht (mk l k r) mod 256)) /\
+  (forall l k r, 0 <= ht l < 255 -> 0 <= ht r < 255 ->
+     Ivv.Gen.LeafAvl.avl_recalc_height (adr l) (ht l) (adr r) (ht r) = Some (ht (mk l k r))) /\
+  (forall l k h r, 0 <= ht l <= 255 -> 0 <= ht r <= 255 ->
+     Ivv.Gen.LeafAvl.avl_balance (adr r) (ht r) (adr l) (ht l) = Some (balance (N l k h r))) /\
+  (forall bal, Ivv.Gen.LeafAvl.avl_rebalance_left_heavy bal = Some (bal =? -2)) /\
+  (forall bal, Ivv.Gen.LeafAvl.avl_rebalance_right_heavy bal = Some (bal =? 2)) /\
+  (forall l k h r, Ivv.Avl.AvlLink.kids_u8 (N l k h r) ->
+     Ivv.Avl.AvlLink.rebalance_node_code adr (N l k h r) = Some (rebalance_node (N l k h r))).
+Proof. exact Ivv.Avl.AvlLink.avl_link_all. Qed.
+Print Assumptions C16_balance_arith_is_the_code.
 
 (* Non-vacuity: a concrete history with rotations of all four kinds, a
    duplicate insert and deletes of leaf / interior / root nodes. *)
